@@ -3,7 +3,7 @@
 # checks it could affect (all must stay green), and undoes it.
 cd /verif
 REPO=${REPO:-/repo}
-declare -A PROPS=( [rat_rename_locals]="C17 C19" [hrs_rename_locals]="C16 C19" [mge_rename_and_augassign]="C16 C17 C19" [cm3_rename_and_reorder]="C17 C19"
+declare -A PROPS=( [rat_rename_locals]="C17 C18 C19" [hrs_rename_locals]="C16 C19" [mge_rename_and_augassign]="C16 C17 C19" [cm3_rename_and_reorder]="C17 C19"
   [max_rename_reformat]="C19" [vef_unsquash_rename]="C17 C19" [pix_rename]="C19" [util_docstrings]="C16 C19"
   [elements_refactor]="C01 C02 C03 C04 C05 C06 C07 C10 C14" [visitors_refactor]="C02 C05 C06 C10 C11 C12" [parser_refactor]="C04 C08 C09 C14 C15"
   [compiler_refactor]="C06 C11 C12 C13 C15" [procbank_refactor]="C12 C13 C15" [elements_shared_default_colour]="C04 C05 C12 C14" [elements_paren_around_signed_operand]="C01 C05 C07" [cm3_pages_local]="C16 C17 C18 C19" [compiler_pass_reorder]="C03 C04 C05 C06 C11 C12 C13 C15" [initializer_and_assignment_refactor]="C01 C02 C03 C05 C07 C09 C10 C11" )
